@@ -3,7 +3,7 @@ import MythVerif.Proofs.WsQueueTsoTac
 namespace MythVerif.WsqTso
 open MythVerif.Wsq
 
-set_option maxHeartbeats 1000000 in
+set_option maxHeartbeats 4000000 in
 theorem t_tq0 (s s' : St) (p : Pid) : Inv s → s.tpc p = .tq0 → stepT s p = some s' → Inv s' := by
   intro h heq hs
   have hb := h.tbufE p (by simp [heq, mayBuf])
@@ -13,7 +13,7 @@ theorem t_tq0 (s s' : St) (p : Pid) : Inv s → s.tpc p = .tq0 → stepT s p = s
   simp only [ownerLocked, carry, resetting, ownerFlight] at *
   tso_finish
 
-set_option maxHeartbeats 1000000 in
+set_option maxHeartbeats 4000000 in
 theorem t_tq1 (s s' : St) (p : Pid) (t) : Inv s → s.tpc p = .tq1 t → stepT s p = some s' → Inv s' := by
   intro h heq hs
   have hb := h.tbufE p (by simp [heq, mayBuf])
@@ -24,7 +24,7 @@ theorem t_tq1 (s s' : St) (p : Pid) (t) : Inv s → s.tpc p = .tq1 t → stepT s
   all_goals simp only [ownerLocked, carry, resetting, ownerFlight] at *
   all_goals tso_finish
 
-set_option maxHeartbeats 1000000 in
+set_option maxHeartbeats 4000000 in
 theorem t_tkl (s s' : St) (p : Pid) : Inv s → s.tpc p = .tkl → stepT s p = some s' → Inv s' := by
   intro h heq hs
   have hb := h.tbufE p (by simp [heq, mayBuf])
@@ -37,7 +37,7 @@ theorem t_tkl (s s' : St) (p : Pid) : Inv s → s.tpc p = .tkl → stepT s p = s
     tso_finish
   · simp at hs; subst hs; exact h
 
-set_option maxHeartbeats 1000000 in
+set_option maxHeartbeats 4000000 in
 theorem t_tk1 (s s' : St) (p : Pid) : Inv s → s.tpc p = .tk1 → stepT s p = some s' → Inv s' := by
   intro h heq hs
   have hb := h.tbufE p (by simp [heq, mayBuf])
@@ -47,7 +47,7 @@ theorem t_tk1 (s s' : St) (p : Pid) : Inv s → s.tpc p = .tk1 → stepT s p = s
   simp only [ownerLocked, carry, resetting, ownerFlight] at *
   tso_finish
 
-set_option maxHeartbeats 1000000 in
+set_option maxHeartbeats 4000000 in
 theorem t_tkf (s s' : St) (p : Pid) (b) : Inv s → s.tpc p = .tkf b → stepT s p = some s' → Inv s' := by
   intro h heq hs
   have hcfg := h.cfg
